@@ -130,6 +130,7 @@ class SolveProperty(Property):
     per_arg = True
     check_trace = True
     max_n = 8
+    thorough_k = 12000
     quick_k = 600      # random / structured frameworks in the quick tier (C07 overrides: its list queries multiply the cases)
     assumptions = [
         "CaDiCaL (the embedded backend) is a sound and complete SAT solver",
@@ -145,7 +146,7 @@ class SolveProperty(Property):
         else:
             for n in range(0, 4):
                 fws += list(gen.all_digraphs(n))
-            k = 12000
+            k = self.thorough_k
         for _ in range(k):
             fws.append(gen.random_framework(rng, self.max_n))
         # medium-size frameworks (13-60 arguments): too large for the exponential reference deciders, covered by the
@@ -344,6 +345,7 @@ class SolveProperty(Property):
 
 class C01(SolveProperty):
     id = "C01"
+    thorough_k = 40000
     tasks = ["SE"]
     rule = "exhaustive digraphs n<=2 (quick) / n<=3 (thorough) + random and structured frameworks up to 8 arguments (both framework routes: ICCMA text with duplicate attacks, update histories with removals), x solver/encoder configurations; a case is non-trivial when the framework has at least one attack; distinct = distinct (framework spec, configuration)"
 
